@@ -57,7 +57,7 @@ class Style:
     _bgcolor: Optional[Color]
     _attributes: int
     _set_attributes: int
-    _hash: int
+    _hash: Optional[int]
     _null: bool
 
     __slots__ = [
@@ -192,15 +192,7 @@ class Style:
         style._attributes = 0
         style._link = None
         style._link_id = ""
-        style._hash = hash(
-            (
-                color,
-                bgcolor,
-                None,
-                None,
-                None,
-            )
-        )
+        style._hash = None
         style._null = not (color or bgcolor)
         return style
 
@@ -356,6 +348,17 @@ class Style:
         )
 
     def __hash__(self) -> int:
+        if self._hash is None:
+            # hash exactly the fields that __eq__ compares
+            self._hash = hash(
+                (
+                    self._color,
+                    self._bgcolor,
+                    self._attributes,
+                    self._set_attributes,
+                    self._link,
+                )
+            )
         return self._hash
 
     @property
@@ -397,7 +400,7 @@ class Style:
         style._set_attributes = self._set_attributes
         style._link = self._link
         style._link_id = f"{time()}-{randint(0, 999999)}" if self._link else ""
-        style._hash = self._hash
+        style._hash = None
         style._null = False
         return style
 
@@ -585,14 +588,14 @@ class Style:
         """
         style = self.__new__(Style)
         style._ansi = self._ansi
-        style._style_definition = self._style_definition
+        style._style_definition = None
         style._color = self._color
         style._bgcolor = self._bgcolor
         style._attributes = self._attributes
         style._set_attributes = self._set_attributes
         style._link = link
         style._link_id = f"{time()}-{randint(0, 999999)}" if link else ""
-        style._hash = self._hash
+        style._hash = None
         style._null = False
         return style
 
@@ -652,7 +655,7 @@ class Style:
         new_style._set_attributes = self._set_attributes | style._set_attributes
         new_style._link = style._link or self._link
         new_style._link_id = style._link_id or self._link_id
-        new_style._hash = style._hash
+        new_style._hash = None
         new_style._null = self._null or style._null
         return new_style
 
